@@ -505,14 +505,6 @@ func NewConfig(configFile string) (*Config, error) { // nolint: gocyclo
 		v      = viper.New()
 	)
 
-	// Allow overriding config with environment variables prefixed with
-	// LIFTBRIDGE_. Nested keys are addressed by replacing "." with "_", e.g.
-	// telemetry.enabled is overridden by LIFTBRIDGE_TELEMETRY_ENABLED. This
-	// applies whether or not a config file is given.
-	v.SetEnvPrefix("LIFTBRIDGE")
-	v.SetEnvKeyReplacer(strings.NewReplacer(".", "_"))
-	v.AutomaticEnv()
-
 	if configFile != "" {
 		// Expect a yaml config file.
 		v.SetConfigFile(configFile)
@@ -528,6 +520,22 @@ func NewConfig(configFile string) (*Config, error) { // nolint: gocyclo
 			if _, ok := configKeys[setting]; !ok {
 				return nil, fmt.Errorf("Unknown configuration setting %q", setting)
 			}
+		}
+	}
+
+	// Allow overriding config with environment variables prefixed with
+	// LIFTBRIDGE_. Nested keys are addressed by replacing "." with "_", e.g.
+	// telemetry.enabled is overridden by LIFTBRIDGE_TELEMETRY_ENABLED. This
+	// applies whether or not a config file is given. The variable of each
+	// known setting is bound explicitly instead of using AutomaticEnv, which
+	// treats a variable named after a section, e.g. LIFTBRIDGE_TELEMETRY, as
+	// hiding every setting of that section in the config file. This is done
+	// after validating the config file since AllKeys includes bound settings.
+	v.SetEnvPrefix("LIFTBRIDGE")
+	v.SetEnvKeyReplacer(strings.NewReplacer(".", "_"))
+	for setting := range configKeys {
+		if err := v.BindEnv(setting); err != nil {
+			return nil, err
 		}
 	}
 
